@@ -100,12 +100,13 @@ def build_election(case, profile):
     raise ValueError("unknown rule " + rule)
 
 
-def script_from_log(nm: Names, log):
+def script_from_log(nm: Names, log, order=None):
     """Recorder log -> (script of draws, expected log of calls) as model values."""
     load = common.load_impl
     load()
     from votekit import Ballot
     script, calls = [], []
+    log = reorder_transfer_draws(nm, log, order)
     for e in log:
         k = e["kind"]
         if k == "sample":
@@ -135,6 +136,31 @@ def script_from_log(nm: Names, log):
             script.append([99, []])
             calls.append([99])
     return script, calls
+
+
+def reorder_transfer_draws(nm, log, order=None):
+    """Within one simultaneous-election round the surplus samples of the winners are independent;
+    the implementation draws them in frozenset iteration order, the model in candidate-list order.
+    Sort each maximal run of transfer samples of the same round by the winner's id."""
+    out, i = [], 0
+    while i < len(log):
+        e = log[i]
+        if e["kind"] == "sample" and e.get("round") is not None and e.get("winner") is not None \
+                and "transfer" in e.get("caller", ""):
+            j = i
+            while j < len(log) and log[j]["kind"] == "sample" and log[j].get("round") == e["round"] \
+                    and log[j].get("winner") is not None and "transfer" in log[j].get("caller", ""):
+                j += 1
+            pos = {str(c): k for k, c in enumerate(order or [])}
+            # groups are visited in descending tally order by both sides; only the order inside a
+            # group of equal tally differs
+            out += sorted(log[i:j], key=lambda x: (-Fraction(x.get("fpv") or 0),
+                                                   pos.get(str(x["winner"]), nm.id(x["winner"]))))
+            i = j
+        else:
+            out.append(e)
+            i += 1
+    return out
 
 
 def norm_pop(pop):
